@@ -99,7 +99,58 @@ STR_BODIES = [b'HELLO', b'', b'a b', b'1,2', b':', b"'", b'REM', b'x\xff\x80', b
 REM_TAILS = [b' hello world', b'', b' GOTO 10', b' x:y', b" it's", b' a"b', b':', b'  spaced  ', b' \xc4\xd6', b' "q', b'-']
 QUOTE_TAILS = REM_TAILS + [b'hello', b'A', b'1', b'\xd9']
 DATA_TAILS = [b' 1,2,3', b' "a,b",c', b' x , y ', b' 1.5,2E3', b' "q', b'', b' a b c', b' -1,+2', b' "a:b"', b',,',
-              b' "x"y"z', b' GOTO']
+              b' "x"y"z', b' GOTO', b' "ab","c:d e"', b' "at 10:30 print",x', b' "a","b","c:goto 10:rem"',
+              b' 1,"x:y","p:q r', b' "a:b","c:d"']
+
+# raw content that tokenisation would change if it were read as code: lower case, keywords, numbers, colons,
+# quotes, REM markers, jump numbers, high and control bytes.  Used inside string literals, REM / ' tails and
+# DATA items, where it must be kept byte for byte.
+RAW_PIECES = [b'a', b'ab', b'x y', b'print', b'PRINT', b'goto 10', b'at 10:30', b':', b':d e', b':rem x', b':print 1',
+              b'10', b'1.5', b'&hff', b"'", b',', b' ', b'  ', b'else', b'Data', b'\xc4', b'\x7f', b'\x01', b'?', b'=',
+              b'go to', b'then 20', b'-', b'e', b'1e5', b'while', b'\xd9', b'\x8f', b';', b'(', b'fn', b'.5#']
+
+
+def raw_text(rng, maxn=4, quote=False, colon=True):
+    """concatenation of raw pieces; quote: may contain double quotes; colon: may contain colons."""
+    out = b''
+    for _ in range(rng.randrange(maxn + 1)):
+        pc = rng.choice(RAW_PIECES)
+        if not colon:
+            pc = pc.replace(b':', b';')
+        out += pc
+        if quote and rng.random() < 0.15:
+            out += b'"'
+    return out
+
+
+def plain_text(rng, maxn=3):
+    """text of an unquoted DATA item: printable ASCII without colon and double quote."""
+    t = raw_text(rng, maxn, quote=False, colon=False)
+    return bytes(bytearray(c for c in bytearray(t) if 32 <= c <= 126 and c not in (34, 58)))
+
+
+def data_tail(rng):
+    """(tail, ends_inside_literal): a DATA tail of several items, quoted and unquoted in any order; quoted items may
+    contain colons followed by anything."""
+    lead = rng.choice([b' ', b' ', b'', b','])
+    items = []
+    n = rng.choice([1, 2, 2, 3, 4])
+    open_end = False
+    for i in range(n):
+        q = rng.random()
+        if q < 0.55:
+            body = raw_text(rng, 3, quote=False, colon=True)
+            if i == n - 1 and rng.random() < 0.15:
+                items.append(b'"' + body)
+                open_end = True
+            else:
+                items.append(b'"' + body + b'"' + (plain_text(rng, 1) if rng.random() < 0.15 else b''))
+        else:
+            items.append(plain_text(rng))
+    tail = lead + rng.choice([b',', b', ', b' ,']).join(items) if n > 1 else lead + items[0]
+    if not lead and tail[:1] not in (b'"', b',', b' ', b''):
+        tail = b' ' + tail
+    return tail, open_end
 
 
 def b2l(b):
@@ -186,7 +237,8 @@ class Gen(object):
             self.p(rng.choice([b'0', b'1', b'7']))
 
     def string(self, closed=True):
-        self.emit(['str', b2l(self.rng.choice(STR_BODIES)), closed])
+        body = self.rng.choice(STR_BODIES) if self.rng.random() < 0.6 else raw_text(self.rng, 3)
+        self.emit(['str', b2l(body), closed])
 
     # --- expressions ---
     def atom(self, depth):
@@ -310,15 +362,21 @@ class Gen(object):
         elif r == 6:
             self.emit(['while']); self.sp(); self.expr()
         elif r == 7:
-            self.emit(['rem', b2l(rng.choice(REM_TAILS))])
+            t = rng.choice(REM_TAILS) if rng.random() < 0.6 else rng.choice([b' ', b':', b'-']) + raw_text(rng, 4, quote=True)
+            self.emit(['rem', b2l(t)])
             return False
         elif r == 8:
-            self.emit(['quote', b2l(rng.choice(QUOTE_TAILS))])
+            t = rng.choice(QUOTE_TAILS) if rng.random() < 0.6 else raw_text(rng, 4, quote=True)
+            self.emit(['quote', b2l(t)])
             return False
-        elif r == 9:
-            t = rng.choice(DATA_TAILS)
+        elif r == 9 or r == 25:
+            if rng.random() < 0.4:
+                t = rng.choice(DATA_TAILS)
+                open_end = t.count(b'"') % 2 == 1
+            else:
+                t, open_end = data_tail(rng)
             self.emit(['data', b2l(t)])
-            if t.count(b'"') % 2 == 1:
+            if open_end:
                 return False
         elif r == 10:
             self.kw(b'ON'); self.sp(); self.expr(); self.sp(); self.kw(rng.choice([b'GOTO', b'GOSUB'])); self.sp()
